@@ -520,7 +520,11 @@ func (c *client) receive(r io.Reader) (err error) {
 	}
 	vhook("recv.unregistered", c, callID)
 	if err := c.inFlightDown(); err != nil {
-		return ServerError{err}
+		// The rpc has been unregistered, so nobody else will complete it
+		// when the client is failed: do it here.
+		err = ServerError{err}
+		returnResult(rpc, nil, err)
+		return err
 	}
 
 	select {
